@@ -60,6 +60,7 @@ class Query:
     sources: list = field(default_factory=list)    # extra .c files (relative to REPO or absolute)
     no_unwinding_assertions: bool = False
     backend: list = field(default_factory=list)    # e.g. ["--external-sat-solver","kissat"]
+    stretch: bool = False                          # undecided (timeout/oom) is reported, not fatal
 
 
 @dataclass
@@ -457,6 +458,7 @@ def run_check(prop, tier, queries, meta):
         for f in futs:
             results.append(f.result())
     violations = []
+    stretch_undecided = []
     machinery = []
     known_lines = []
     for r in results:
@@ -472,6 +474,8 @@ def run_check(prop, tier, queries, meta):
             continue
         if r.status == "FAIL":
             violations.append(r)
+        elif r.status in ("TIMEOUT", "OOM") and q.stretch:
+            stretch_undecided.append(r)
         elif r.status != "PASS":
             machinery.append((r, "%s %s" % (r.status, r.detail[:800])))
         elif q.witness and r.witness != "reached":
@@ -522,6 +526,7 @@ def run_check(prop, tier, queries, meta):
                        "vars": r.variables, "solver_s": round(r.solver_s, 3), "wall_s": round(r.wall_s, 2),
                        "rss_mb": r.rss_mb, "witness": r.witness} for r in main][:400],
         "known_findings_reported": known_lines,
+        "stretch_queries_undecided_outside_the_claim": [r.query.name for r in stretch_undecided],
         "notes_out_of_bounds_pointer_formed_for_comparison": sorted({n for r in main for n in r.notes})[:40],
     }
     ev = {
